@@ -191,6 +191,43 @@ def run_case(ctx, case):
     if any("\x00" in s for s in _strings(vals)):
         ctx.exclude("NUL")
         return
+    if len(repr(vals)) % 3 == 0:  # (a pure function of the case)
+        # what a channel returns does not depend on what was asked before: every third case is preceded by a command line that sets
+        # the class-typed arguments to *other* specs and is then rejected while its --cfg is being read (on a parser of its own)
+        FXP = "vf.gen.fixtures."
+        base_spec = {"class_path": FXP + "SubA", "init_args": {"p": 9, "q": "stale"}}
+
+        def stale(sh):
+            k = sh[0]
+            if k == "cls":
+                return base_spec if sh[1] == "Base" else {"class_path": FXP + "Holder", "init_args": {"inner": base_spec, "items": {"stale": 1}}}
+            if k == "opt":
+                return stale(sh[1])
+            if k in ("list", "seq"):
+                inner = stale(sh[1])
+                return None if inner is None else [inner]
+            if k == "dict":
+                inner = stale(sh[1])
+                return None if inner is None else {"k": inner, "a": inner}
+            if k == "tuple":
+                inner = stale(sh[1])
+                return None if inner is None or len(sh) != 3 else [inner, 0]
+            return None
+
+        top, subs = [], []
+        for name, sh in shapes.items():
+            v = stale(sh)
+            if v is not None:
+                sub = case.get("subcommand")
+                if sub and name.startswith(sub + ".") and name.split(".", 1)[1] in [a[0] for a in (recipe.get("sub") or {}).get(sub, [])]:
+                    continue  # (only top-level arguments: the rejected --cfg belongs to the top-level parser)
+                top.append(f"--{name}={json.dumps(v)}")
+        if top:
+            try:
+                P.build(recipe).parse_args(top + ["--cfg=[}"])
+            except BaseException:  # noqa
+                pass
+            ctx.cls("preceded-by-a-rejected-command-line")
     with _rt.scratch_dir() as d:
         chans, doc = channels(recipe, vals, d)
         results = []
